@@ -20,6 +20,7 @@ ASSUMPTIONS = [
 
 PROFILE = scenario.profile(
     maxD=3,
+    allow_mixed_unbounded=True,  # bounded and unbounded variables in one problem (valid since the per-variable half-bounds fix)
     c_classes=("inside", "hardbox", "on_bound", "on_bound", "outside", "outside", "far"),
     x0_classes=("interior", "on_lb", "on_ub", "near", "near", "at_plb", "at_pub", "out_plausible"),
     coord_classes=("linear", "tight", "log", "log", "posnolog", "unbounded"),
